@@ -2,7 +2,7 @@
 # G-hist histories on compiled programs, run on the implementation (hooks on) and on the extracted
 # model; a Python oracle that computes, from the uninterrupted instruction path and the bookkeeping
 # of requests, where every call must leave the machine.
-import itertools, json, os, sys
+import re, itertools, json, os, sys
 sys.path.insert(0, os.path.dirname(os.path.abspath(__file__)))
 import vlib, gen_prog
 from checklib import BuildError
@@ -87,6 +87,21 @@ def alphabet(prog, rng, nlocs=2):
     calls.append('B %s %d 1' % (vlib.hexs('nofile'), 77))
     calls += ['C', 'S 1', 'S 0', 'X 4000', 'I', 'R']
     return calls
+
+
+def odd_requests(prog):
+    """enable requests for positions that are NOT available locations: program names with line 0, a real file with line 0 or a
+    line without code, the hidden macro file, the root script's name"""
+    names = set(re.findall(r'(?im)^\s*prog(?:ram)?\s+([A-Za-z_]\w*)', ' '.join(str(v) for v in prog.get('source', {}).get('files', {}).values())))
+    files = sorted(set(f for f, _ in prog['pbs'].keys()))
+    out = []
+    for n in sorted(names) + ['#root', 'main']:
+        out.append('B %s 0 1' % vlib.hexs(n))
+    for f in files[:2]:
+        for l in (0, -1, 100000):
+            out.append('B %s %d 1' % (f, l))
+    out.append('B %s 1 1' % vlib.hexs('__standards__'))
+    return out
 
 
 def random_history(prog, rng, n):
@@ -371,6 +386,10 @@ def explore(ctx, res, replay=None):
                 continue
             for _ in range(nlong):
                 add(pi, random_history(progs[pi], rng, rng.randint(3, 40 if quick else 200)))
+            # requests for positions that are not available must fail and must not disturb the run
+            for rq in odd_requests(progs[pi]):
+                add(pi, [rq, 'X 20000', 'C', 'X 20000'])
+            add(pi, odd_requests(progs[pi]) + ['X 20000'])
             # calls after the end has been reached, with and without stepping
             add(pi, ['X 20000', 'X 20000', 'I', 'I', 'X 20000', 'S 1', 'I', 'X 20000', 'S 0', 'X 20000'])
             add(pi, ['S 1'] + ['X 20000'] * 3 + ['XS 20000', 'I', 'I', 'XS 20000'])
